@@ -1040,7 +1040,11 @@ func (g *schemaGenerator) generateEnumType(t *schemas.Type, scope nameScope) (co
 			for i, v := range t.Enum {
 				switch v := v.(type) {
 				case float64:
-					t.Enum[i] = int(v)
+					// A listed value that is not an integer can never equal an integer
+					// instance; truncating it would make its integer part acceptable.
+					if n := int(v); float64(n) == v {
+						t.Enum[i] = n
+					}
 
 				default:
 					return nil, fmt.Errorf("%w %v", errEnumNonPrimitiveVal, v)
